@@ -62,7 +62,7 @@ macro_rules! pop_impl {
             type Output = Ind;
             type Error = MakerErr;
             fn apply<R: Rng + ?Sized>(&self, pop: &'p $t, rng: &mut R) -> Result<Ind, MakerErr> {
-                self.make(pop.ids(), std::ptr::from_ref(pop) as u64, rng)
+                self.make(|| pop.ids(), std::ptr::from_ref(pop) as u64, rng)
             }
         }
     };
@@ -80,6 +80,60 @@ struct Shared {
     next_id: AtomicU64,
 }
 
+/// A schedule enumerated by TLC (spec/ec/MC_GenSchedule.tla), forced on the real step: every call of the
+/// child maker is held at its entry until the events before its start in the schedule have happened and
+/// at its exit until the events before its end have happened. Calls are numbered in start order, like in
+/// the specification. A schedule the real step does not follow within `PATIENCE` of no progress (too few
+/// threads awake, optional calls after a failure that rayon did not make) is given up: everything then runs
+/// freely, the run is still recorded and validated, and it counts as "not realised" (never a verdict).
+pub struct Gate {
+    events: Vec<(u8, u64)>, // (0 start | 1 ok | 2 fail, call)
+    st: Mutex<GateState>,
+    cv: std::sync::Condvar,
+}
+struct GateState {
+    entered: u64,
+    ended: Vec<bool>,
+    gave_up: bool,
+}
+const PATIENCE: std::time::Duration = std::time::Duration::from_millis(250);
+impl Gate {
+    fn new(events: Vec<(u8, u64)>) -> Self {
+        let n = events.iter().map(|e| e.1).max().unwrap_or(0) as usize;
+        Gate { events, st: Mutex::new(GateState { entered: 0, ended: vec![false; n + 2], gave_up: false }),
+               cv: std::sync::Condvar::new() }
+    }
+    fn satisfied(&self, st: &GateState, upto: usize) -> bool {
+        self.events[..upto].iter().all(|&(k, c)| if k == 0 { st.entered >= c } else { st.ended.get(c as usize).copied().unwrap_or(false) })
+    }
+    /// index of the event (kind class, call) in the schedule; the whole schedule for a call that is not in it
+    fn index_of(&self, start: bool, call: u64) -> usize {
+        self.events.iter().position(|&(k, c)| c == call && (k == 0) == start).unwrap_or(self.events.len())
+    }
+    fn wait<'g>(&'g self, mut st: std::sync::MutexGuard<'g, GateState>, start: bool, call_of: impl Fn(&GateState) -> u64)
+        -> std::sync::MutexGuard<'g, GateState> {
+        loop {
+            let call = call_of(&st);
+            if st.gave_up || self.satisfied(&st, self.index_of(start, call)) {
+                return st;
+            }
+            let before = (st.entered, st.ended.iter().filter(|b| **b).count());
+            // once a call has failed the step may legitimately make no further calls (L6): what the schedule
+            // still wants to see started is then waited for only briefly
+            let failed = self.events.iter().any(|&(k, c)| k == 2 && st.ended.get(c as usize).copied().unwrap_or(false));
+            let (g, to) = self.cv.wait_timeout(st, if failed { PATIENCE / 16 } else { PATIENCE }).expect("gate lock");
+            st = g;
+            if to.timed_out() && before == (st.entered, st.ended.iter().filter(|b| **b).count()) {
+                st.gave_up = true;
+                self.cv.notify_all();
+            }
+        }
+    }
+    fn outcome_ok(&self, call: u64) -> bool {
+        !self.events.iter().any(|&(k, c)| k == 2 && c == call)
+    }
+}
+
 /// The child-making operator handed to `Generation`: observes what it is shown and draws one
 /// word from the generator it is given.
 struct Maker<'a> {
@@ -90,13 +144,14 @@ struct Maker<'a> {
     delays: Vec<u8>,           // per call: 0 none, 1 yield, 2.. sleep (schedule perturbation)
     pop_addr: AtomicU64,       // address of the generation's own population object (0 = unknown)
     key_mod: u64,              // children get key (word % key_mod): equal keys collapse in set-like populations
+    gate: Option<Gate>,        // a forced schedule (gen-sched); None = free running (gen-trace)
 }
 
 impl Composable for Maker<'_> {}
 
 impl Composable for &Maker<'_> {}
 impl Maker<'_> {
-    fn make<R: Rng + ?Sized>(&self, seen: Vec<u64>, addr: u64, rng: &mut R) -> Result<Ind, MakerErr> {
+    fn make<R: Rng + ?Sized>(&self, seen: impl FnOnce() -> Vec<u64>, addr: u64, rng: &mut R) -> Result<Ind, MakerErr> {
         let tid = {
             let mut t = self.sh.threads.lock().expect("lock");
             let n = t.len() as u64 + 1;
@@ -104,8 +159,15 @@ impl Maker<'_> {
         };
         let call;
         {
+            // forced schedule: held here until this call - it will be call number `entered + 1` - may start
+            let mut gate = self.gate.as_ref().map(|g| g.wait(g.st.lock().expect("gate lock"), true, |st| st.entered + 1));
+            let seen = seen();
             let mut ev = self.sh.events.lock().expect("lock");
             call = self.sh.call.fetch_add(1, Ordering::SeqCst) + 1;
+            if let (Some(st), Some(g)) = (gate.as_mut(), self.gate.as_ref()) {
+                st.entered += 1;
+                g.cv.notify_all();
+            }
             let first = self.pop_addr.compare_exchange(0, addr, Ordering::SeqCst, Ordering::SeqCst);
             let same = first.is_ok() || first == Err(addr);
             ev.push(json!({"ev": "start", "run": self.run, "call": call, "thread": tid,
@@ -117,8 +179,20 @@ impl Maker<'_> {
             1 => std::thread::yield_now(),
             d => std::thread::sleep(std::time::Duration::from_micros(u64::from(d) * 30)),
         }
+        // forced schedule: held here until this call may end; the end is logged and marked under the gate's lock
+        let mut gate = self.gate.as_ref().map(|g| g.wait(g.st.lock().expect("gate lock"), false, |_| call));
+        if let (Some(st), Some(g)) = (gate.as_mut(), self.gate.as_ref()) {
+            if let Some(e) = st.ended.get_mut(call as usize) {
+                *e = true;
+            }
+            g.cv.notify_all();
+        }
+        let fails = match &self.gate {
+            Some(g) => !g.outcome_ok(call),
+            None => self.fail_plan[self.step.load(Ordering::SeqCst)].contains(&call),
+        };
         let mut ev = self.sh.events.lock().expect("lock");
-        if self.fail_plan[self.step.load(Ordering::SeqCst)].contains(&call) {
+        if fails {
             ev.push(json!({"ev": "end", "run": self.run, "call": call, "ok": false, "word": "", "child": 0, "key": 0}));
             Err(MakerErr(call))
         } else {
@@ -132,10 +206,14 @@ impl Maker<'_> {
     }
 }
 
+fn gave_up(m: &Maker<'_>) -> bool {
+    m.gate.as_ref().is_some_and(|g| g.st.lock().expect("gate lock").gave_up)
+}
+
 /// one run (1-3 consecutive steps on ONE `Generation` object) on population type `P`
 #[allow(clippy::too_many_arguments)]
 fn run_on<P>(sh: &Shared, run: u64, n: usize, serial: bool, threads: usize, fail_plan: &[BTreeSet<u64>],
-             delays: &[u8], key_mod: u64) -> Vec<Value>
+             delays: &[u8], key_mod: u64, gate: Option<Gate>) -> Vec<Value>
 where
     P: Pop + ec_core::population::Population<Individual = Ind> + rayon::iter::FromParallelIterator<Ind>,
     for<'m, 'a, 'p> &'m Maker<'a>: Operator<&'p P, Output = Ind, Error = MakerErr>,
@@ -143,7 +221,7 @@ where
     let mut lines: Vec<Value> = Vec::new();
     let pool = rayon::ThreadPoolBuilder::new().num_threads(threads).build().expect("pool");
     let maker = Maker { sh, run, fail_plan: fail_plan.to_vec(), step: std::sync::atomic::AtomicUsize::new(0),
-                        delays: delays.to_vec(), pop_addr: AtomicU64::new(0), key_mod };
+                        delays: delays.to_vec(), pop_addr: AtomicU64::new(0), key_mod, gate };
     let pop: P = (1..=n as u64).map(|i| Ind { id: i, key: i }).collect();
     lines.push(json!({"ev": "reset", "run": run, "mode": if serial { "serial" } else { "par" }, "kind": P::KIND,
                       "collection": P::NAME, "n": n, "threads": threads, "pop": pop.ids()}));
@@ -157,8 +235,8 @@ where
         let after = g.population().ids();
         let (size, is_empty) = (ec_core::population::Population::size(g.population()), ec_core::population::Population::is_empty(g.population()));
         lines.push(match r {
-            Ok(()) => json!({"ev": "return", "run": run, "ok": true, "err_call": 0, "pop_after": after, "size": size, "is_empty": is_empty}),
-            Err(MakerErr(c)) => json!({"ev": "return", "run": run, "ok": false, "err_call": c, "pop_after": after, "size": size, "is_empty": is_empty}),
+            Ok(()) => json!({"ev": "return", "run": run, "ok": true, "err_call": 0, "pop_after": after, "size": size, "is_empty": is_empty, "gave_up": gave_up(&maker)}),
+            Err(MakerErr(c)) => json!({"ev": "return", "run": run, "ok": false, "err_call": c, "pop_after": after, "size": size, "is_empty": is_empty, "gave_up": gave_up(&maker)}),
         });
     }
     lines
@@ -172,17 +250,17 @@ impl<'p> Operator<&'p Vec<Scored>> for &Maker<'_> {
     type Output = Ind;
     type Error = MakerErr;
     fn apply<R: Rng + ?Sized>(&self, pop: &'p Vec<Scored>, rng: &mut R) -> Result<Ind, MakerErr> {
-        self.make(pop.iter().map(|i| i.genome.id).collect(), std::ptr::from_ref(pop) as u64, rng)
+        self.make(|| pop.iter().map(|i| i.genome.id).collect(), std::ptr::from_ref(pop) as u64, rng)
     }
 }
 #[allow(clippy::too_many_arguments)]
 fn run_scored(sh: &Shared, run: u64, n: usize, serial: bool, threads: usize, fail_plan: &[BTreeSet<u64>],
-              delays: &[u8], key_mod: u64) -> Vec<Value> {
+              delays: &[u8], key_mod: u64, gate: Option<Gate>) -> Vec<Value> {
     use ec_core::{individual::scorer::FnScorer, operator::genome_scorer::GenomeScorer};
     let mut lines: Vec<Value> = Vec::new();
     let pool = rayon::ThreadPoolBuilder::new().num_threads(threads).build().expect("pool");
     let maker = Maker { sh, run, fail_plan: fail_plan.to_vec(), step: std::sync::atomic::AtomicUsize::new(0),
-                        delays: delays.to_vec(), pop_addr: AtomicU64::new(0), key_mod };
+                        delays: delays.to_vec(), pop_addr: AtomicU64::new(0), key_mod, gate };
     let pop: Vec<Scored> = (1..=n as u64).map(|i| Scored::new(Ind { id: i, key: i }, i)).collect();
     let ids = |p: &Vec<Scored>| -> Vec<u64> { p.iter().map(|i| i.genome.id).collect() };
     lines.push(json!({"ev": "reset", "run": run, "mode": if serial { "serial" } else { "par" }, "kind": "seq",
@@ -207,8 +285,8 @@ fn run_scored(sh: &Shared, run: u64, n: usize, serial: bool, threads: usize, fai
             (1, false)
         };
         lines.push(match r {
-            Ok(()) => json!({"ev": "return", "run": run, "ok": true, "err_call": 0, "pop_after": after, "size": size, "is_empty": is_empty}),
-            Err(MakerErr(c)) => json!({"ev": "return", "run": run, "ok": false, "err_call": c, "pop_after": after, "size": size, "is_empty": is_empty}),
+            Ok(()) => json!({"ev": "return", "run": run, "ok": true, "err_call": 0, "pop_after": after, "size": size, "is_empty": is_empty, "gave_up": gave_up(&maker)}),
+            Err(MakerErr(c)) => json!({"ev": "return", "run": run, "ok": false, "err_call": c, "pop_after": after, "size": size, "is_empty": is_empty, "gave_up": gave_up(&maker)}),
         });
     }
     lines
@@ -315,12 +393,12 @@ pub fn trace(args: &[String]) -> i32 {
         }
         let delays: Vec<u8> = (0..7).map(|_| rng.random_range(0..5)).collect();
         let res = guarded(|| match coll {
-            4 => run_on::<VecDeque<Ind>>(&sh, run, n, serial, threads, &fail_plan, &delays, key_mod),
-            5 => run_on::<LinkedList<Ind>>(&sh, run, n, serial, threads, &fail_plan, &delays, key_mod),
-            6 => run_on::<BTreeSet<Ind>>(&sh, run, n, serial, threads, &fail_plan, &delays, key_mod),
-            7 => run_on::<HashSet<Ind>>(&sh, run, n, serial, threads, &fail_plan, &delays, key_mod),
-            8 | 9 => run_scored(&sh, run, n, serial, threads, &fail_plan, &delays, key_mod),
-            _ => run_on::<Vec<Ind>>(&sh, run, n, serial, threads, &fail_plan, &delays, key_mod),
+            4 => run_on::<VecDeque<Ind>>(&sh, run, n, serial, threads, &fail_plan, &delays, key_mod, None),
+            5 => run_on::<LinkedList<Ind>>(&sh, run, n, serial, threads, &fail_plan, &delays, key_mod, None),
+            6 => run_on::<BTreeSet<Ind>>(&sh, run, n, serial, threads, &fail_plan, &delays, key_mod, None),
+            7 => run_on::<HashSet<Ind>>(&sh, run, n, serial, threads, &fail_plan, &delays, key_mod, None),
+            8 | 9 => run_scored(&sh, run, n, serial, threads, &fail_plan, &delays, key_mod, None),
+            _ => run_on::<Vec<Ind>>(&sh, run, n, serial, threads, &fail_plan, &delays, key_mod, None),
         });
         match res {
             Ok(lines) => {
@@ -329,6 +407,55 @@ pub fn trace(args: &[String]) -> i32 {
                 }
             }
             Err(m) => out.line(&json!({"ev": "panic", "run": run, "msg": m})),
+        }
+    }
+    out.finish();
+    0
+}
+
+/// `gen-sched --schedules <ndjson from TLC> --out <trace>`: every schedule of MC_GenSchedule is forced on a real
+/// step (see `Gate`), on pools of exactly as many threads as the schedule overlaps calls and of two more, on the
+/// collections in turn; the recorded run is validated by Trace_Generation like any other.
+pub fn sched(args: &[String]) -> i32 {
+    let scheds = crate::util::read_ndjson(arg_req(args, "--schedules"));
+    let mut out = Out::create(arg_req(args, "--out"));
+    let mut run = arg_u64(args, "--first-run", 0);
+    for (si, sc) in scheds.iter().enumerate() {
+        let n = sc["n"].as_u64().expect("n") as usize;
+        let serial = sc["mode"] == "serial";
+        let overlap = sc["overlap"].as_u64().expect("overlap").max(1) as usize;
+        let events: Vec<(u8, u64)> = sc["events"].as_array().expect("events").iter().map(|e| {
+            let k = match e[0].as_str().expect("kind") { "c" => 0, "ok" => 1, _ => 2 };
+            (k, e[1].as_u64().expect("call"))
+        }).collect();
+        for (vi, threads) in [overlap, overlap + 2].into_iter().enumerate() {
+            if serial && vi == 1 {
+                continue;
+            }
+            let sh = Shared {
+                events: Mutex::new(Vec::new()),
+                threads: Mutex::new(HashMap::new()),
+                call: AtomicU64::new(0),
+                next_id: AtomicU64::new(1000),
+            };
+            let fail_plan = vec![BTreeSet::new()];
+            let gate = Some(Gate::new(events.clone()));
+            let res = guarded(|| match (si + vi) % 6 {
+                1 => run_on::<VecDeque<Ind>>(&sh, run, n, serial, threads, &fail_plan, &[0], 1 << 40, gate),
+                2 => run_on::<LinkedList<Ind>>(&sh, run, n, serial, threads, &fail_plan, &[0], 1 << 40, gate),
+                3 => run_scored(&sh, run, n, serial, threads, &fail_plan, &[0], 1 << 40, gate),
+                _ => run_on::<Vec<Ind>>(&sh, run, n, serial, threads, &fail_plan, &[0], 1 << 40, gate),
+            });
+            match res {
+                Ok(mut lines) => {
+                    lines[0]["sched"] = json!(si);
+                    for ln in lines {
+                        out.line(&ln);
+                    }
+                }
+                Err(m) => out.line(&json!({"ev": "panic", "run": run, "sched": si, "msg": m})),
+            }
+            run += 1;
         }
     }
     out.finish();
